@@ -16,6 +16,8 @@ CLAIMED = {
     "C17": dict(technique=T_E2 + "; arbitrary symbolic response heads / frame streams, ASCII SymStr for decoded text; exception class, read-request cap and step budget as assertions", design_ref="DESIGN.md 5/C17"),
     "C09": dict(technique=T_E2 + "; symbolic ASCII header strings through _validate; symbolic 3-digit status, header variants, redirect chains and truncation points through the real connect() on the fake network", design_ref="DESIGN.md 5/C09"),
     "C10": dict(technique=T_E2 + "; symbolic ASCII host/resource/option strings and 128 symbolic key bits; produced request compared with an independently assembled one", design_ref="DESIGN.md 5/C10"),
+    "C18": dict(technique="CrossHair (z3 Int/strings) deciding the port rule for every port 1..70000; " + T_E2 + " for the address-list fall-through (outcomes as solver choices, timeout a solver real); exhaustive catalogue enumeration for URL shapes", design_ref="DESIGN.md 5/C18", engine="bvsym+crosshair"),
+    "C19": dict(technique="CrossHair deciding the no_proxy domain rule over all Unicode strings in the bound; " + T_E2 + " with ASCII SymStr for longer strings, 32-bit symbolic addresses for every CIDR prefix, symbolic proxy status through the real tunnel code", design_ref="DESIGN.md 5/C19", engine="bvsym+crosshair"),
     "C12": dict(technique=T_E2 + " for short writes; z3 integer-order query over lock/write event traces extracted from the real code for ALL thread interleavings, replayed with real threads", design_ref="DESIGN.md 5/C12"),
 }
 _PENDING = "check not built yet in this revision (planned: see DESIGN.md section 5)"
